@@ -34,6 +34,9 @@ def run(repo: Repo, rep, tier: str):
     inverse_pairs(repo, rep, "C10", "R1")
     from . import c05
     c05.raw_inverse_paths(repo, rep, "C10", "R2")
+    raw_guards(repo, rep, "C10", "R2g")
+    from . import c15
+    c15.user_value_type_rule(repo, rep, "C10", "R2u")      # MetaModule user controllers encode with the resolved range of their target
     pattern_value(repo, rep, "C10")
     dependent_parent(repo, rep, "C10")
     range_inventory(repo, rep, "C10")
@@ -205,6 +208,253 @@ def inverse_pairs(repo: Repo, rep, P: str, rule: str):
     else:
         rep.violation(f"{P}.{rule}", f"{rng.file.rel}:Range.__call__", "; ".join(s), "Range(value) must validate and return the value unchanged",
                       f"{rng.file.rel}:{call.lineno}")
+
+
+# ------------------------------------------------------------------------------------ R2g
+GUARD_IGNORED = ("log.", "logging.", "_F", "str", "repr", "int", "format", "print", "hex")
+
+
+class _NoInterval(Exception):
+    pass
+
+
+def _rejects(repo: Repo, ci: ClassInfo, body: List[ast.stmt], depth: int = 0) -> bool:
+    for st in body:
+        for n in ast.walk(st):
+            if isinstance(n, ast.Raise):
+                return True
+            if isinstance(n, ast.Call) and isinstance(n.func, ast.Attribute) and norm(n.func.value) == "self" and depth < 2:
+                try:
+                    _, h = repo.method(ci, n.func.attr)
+                except AnchorMissing:
+                    continue
+                if _rejects(repo, ci, h.body, depth + 1):
+                    return True
+    return False
+
+
+def _accept_interval(repo: Repo, ci: ClassInfo, fn: ast.FunctionDef, depth: int = 0):
+    """(lo, hi) Polys in m (= self.min), M (= self.max) such that the method rejects exactly the values outside [lo, hi];
+    None bounds = unbounded.  Raises _NoInterval for bodies outside the recognised fragment."""
+    params = [a.arg for a in fn.args.args if a.arg != "self"]
+    if len(params) != 1:
+        raise _NoInterval("validator takes more than the value")
+    x = params[0]
+    env: Dict[str, alg.Poly] = {}
+
+    def leaf(e):
+        if norm(e) == "self.min":
+            return alg.Poly.sym("m")
+        if norm(e) == "self.max":
+            return alg.Poly.sym("M")
+        if isinstance(e, ast.Name) and e.id in env:
+            return env[e.id]
+        return None
+    lo = hi = None
+
+    def tighten(kind, bound):
+        nonlocal lo, hi
+        if kind == "lo":
+            lo = bound if lo is None else lo      # several lower bounds: keep the first (all are reported separately by the caller)
+        else:
+            hi = bound if hi is None else hi
+    for st in stmts_of(fn):
+        if isinstance(st, ast.Assign) and len(st.targets) == 1 and isinstance(st.targets[0], ast.Name):
+            try:
+                env[st.targets[0].id] = alg.to_poly(st.value, leaf)
+            except alg.NotAlgebraic as e:
+                raise _NoInterval(f"local {norm(st)} not affine")
+            continue
+        if isinstance(st, ast.Expr) and isinstance(st.value, ast.Call) and isinstance(st.value.func, ast.Attribute) \
+                and norm(st.value.func.value) == "self" and len(st.value.args) == 1 and norm(st.value.args[0]) == x and depth < 2:
+            try:
+                owner, h = repo.method(ci, st.value.func.attr)
+            except AnchorMissing:
+                raise _NoInterval(f"callee {st.value.func.attr} not found")
+            l2, h2 = _accept_interval(repo, ci, h, depth + 1)
+            if l2 is not None:
+                tighten("lo", l2)
+            if h2 is not None:
+                tighten("hi", h2)
+            continue
+        if isinstance(st, ast.If) and not st.orelse and _rejects(repo, ci, st.body):
+            conds = st.test.values if isinstance(st.test, ast.BoolOp) and isinstance(st.test.op, ast.Or) else [st.test]
+            t0 = st.test
+            if isinstance(t0, ast.UnaryOp) and isinstance(t0.op, ast.Not) and isinstance(t0.operand, ast.Compare) \
+                    and len(t0.operand.ops) == 2 and norm(t0.operand.comparators[0]) == x:
+                # not (A <= x <= B): accepted exactly inside the chain
+                c0 = t0.operand
+                try:
+                    a, b = alg.to_poly(c0.left, leaf), alg.to_poly(c0.comparators[1], leaf)
+                except alg.NotAlgebraic:
+                    raise _NoInterval(f"bound in {norm(c0)} not affine")
+                o1, o2 = c0.ops
+                if isinstance(o1, ast.LtE):
+                    tighten("lo", a)
+                elif isinstance(o1, ast.Lt):
+                    tighten("lo", a + 1)
+                else:
+                    raise _NoInterval(f"condition {norm(t0)}")
+                if isinstance(o2, ast.LtE):
+                    tighten("hi", b)
+                elif isinstance(o2, ast.Lt):
+                    tighten("hi", b - 1)
+                else:
+                    raise _NoInterval(f"condition {norm(t0)}")
+                continue
+            for c in conds:
+                if not (isinstance(c, ast.Compare) and len(c.ops) == 1):
+                    raise _NoInterval(f"condition {norm(c)}")
+                l, op, r = c.left, c.ops[0], c.comparators[0]
+                if norm(r) == x and norm(l) != x:
+                    l, r = r, l
+                    op = {ast.Lt: ast.Gt, ast.Gt: ast.Lt, ast.LtE: ast.GtE, ast.GtE: ast.LtE}.get(type(op), type(None))()
+                if norm(l) != x:
+                    raise _NoInterval(f"condition {norm(c)}")
+                try:
+                    b = alg.to_poly(r, leaf)
+                except alg.NotAlgebraic:
+                    raise _NoInterval(f"bound {norm(r)} not affine")
+                if isinstance(op, ast.Lt):
+                    tighten("lo", b)
+                elif isinstance(op, ast.LtE):
+                    tighten("lo", b + 1)
+                elif isinstance(op, ast.Gt):
+                    tighten("hi", b)
+                elif isinstance(op, ast.GtE):
+                    tighten("hi", b - 1)
+                else:
+                    raise _NoInterval(f"condition {norm(c)}")
+            continue
+        if isinstance(st, (ast.Return, ast.Pass)):
+            continue
+        raise _NoInterval(f"statement {norm(st)[:50]}")
+    return lo, hi
+
+
+# integer regions of (m, M) with M >= m: (label, sign, vertex, extreme rays)
+REGIONS = [("min < 0", -1, (-1, -1), [(0, 1), (-1, -1)]),
+           ("min = 0", 0, (0, 0), [(0, 1)]),
+           ("min > 0", 1, (1, 1), [(1, 1), (0, 1)])]
+
+
+def _at(p: alg.Poly, m, M) -> Fraction:
+    q = p.subst("m", alg.Poly.const(m)).subst("M", alg.Poly.const(M))
+    if not q.is_const():
+        raise _NoInterval(f"bound depends on {sorted(q.symbols())}")
+    return q.const_value()
+
+
+def _nonneg_on(p: alg.Poly, vertex, rays):
+    """Is the affine p(m, M) >= 0 on vertex + cone(rays)?  Returns None or a witness (m, M)."""
+    v0 = _at(p, *vertex)
+    if v0 < 0:
+        return vertex
+    for r in rays:
+        d = _at(p, vertex[0] + r[0], vertex[1] + r[1]) - v0
+        if d < 0:
+            k = int(v0 // (-d)) + 1
+            return (vertex[0] + k * r[0], vertex[1] + k * r[1])
+    return None
+
+
+def raw_guards(repo: Repo, rep, P: str, rule: str):
+    """Whatever Module.set_raw applies to the *stored* value before decoding it (a validator) accepts every stored value
+    that to_raw_value can produce for a value of the range — otherwise set_raw(get_raw(v)) fails for in-range v."""
+    mod = repo.cls("Module", module="rv.modules.module")
+    fn = repo.own_method(mod, "set_raw")
+    rel = mod.file.rel
+    con = f"{rel}:Module.set_raw"
+    params = [a.arg for a in fn.args.args if a.arg != "self"]
+    raw = params[1] if len(params) > 1 else "raw_value"
+    bound: Dict[str, str] = {}
+    for n in walk_no_nested(fn):
+        if isinstance(n, ast.Assign) and isinstance(n.value, ast.Call) and norm(n.value.func) == "getattr" and len(n.value.args) >= 2 \
+                and isinstance(n.value.args[1], ast.Constant) and isinstance(n.targets[0], ast.Name):
+            bound[n.targets[0].id] = str(n.value.args[1].value)
+    guards: List[Tuple[str, ast.Call]] = []
+    for c in walk_no_nested(fn):
+        if not (isinstance(c, ast.Call) and any(norm(a) == raw for a in c.args)):
+            continue
+        f = norm(c.func)
+        name = bound.get(f) if isinstance(c.func, ast.Name) else (c.func.attr if isinstance(c.func, ast.Attribute) else None)
+        if name in ("from_raw_value",) or f.startswith(GUARD_IGNORED) or f in GUARD_IGNORED:
+            continue
+        if name is None:
+            if f[:1].isupper() or f.endswith("Error") or "format" in f:
+                continue
+            rep.inconclusive(f"{P}.{rule}", con, norm(c), "the stored value is passed to a call that is not resolved", f"{rel}:{c.lineno}")
+            continue
+        guards.append((name, c))
+    rep.instances["stored_value_guards_in_set_raw"] = len(guards)
+    if not guards:
+        rep.ok(f"{P}.{rule}", con, f"`{raw}` flows only into from_raw_value", "no check is applied to the undecoded stored value")
+        return
+    for name, call in guards:
+        for kind in KINDS:
+            ci = repo.cls(kind, module="rv.controller")
+            try:
+                owner, g = repo.method(ci, name)
+                to_owner, to_fn = repo.method(ci, "to_raw_value")
+            except AnchorMissing:
+                rep.ok(f"{P}.{rule}", f"{ci.file.rel}:{kind}.{name}", "not defined", "no stored-value check for this kind", nontrivial=False)
+                continue
+            gcon = f"{ci.file.rel}:{owner.name}.{name}"
+            try:
+                if any(k.name == "WarnOnlyRange" for k in repo.mro(ci)) and "WarnOnlyRange" in norm(g) + "".join(
+                        norm(repo.method(ci, c2.func.attr)[1]) for c2 in ast.walk(g)
+                        if isinstance(c2, ast.Call) and isinstance(c2.func, ast.Attribute) and norm(c2.func.value) == "self"
+                        and c2.func.attr in {m for k in repo.mro(ci) for m in k.methods}):
+                    rep.ok(f"{P}.{rule}", gcon, f"[{kind}]", "warn-only kind: the check does not reject", nontrivial=False)
+                    continue
+            except AnchorMissing:
+                pass
+            try:
+                lo, hi = _accept_interval(repo, ci, g)
+            except _NoInterval as e:
+                rep.inconclusive(f"{P}.{rule}", gcon, f"[{kind}] {norm(call)}", f"acceptance set of the stored-value check not derivable: {e}",
+                                 f"{ci.file.rel}:{g.lineno}")
+                continue
+            te = _single_return(to_fn)
+            tp = [a.arg for a in to_fn.args.args if a.arg != "self"][0]
+            for label, sign, vertex, rays in REGIONS:
+                tb = _branch_for_case(repo, to_owner, te, vertex[0]) if te is not None else None
+                if tb is None:
+                    rep.inconclusive(f"{P}.{rule}", gcon, f"[{kind}, {label}]", "to_raw_value not resolvable for this case", f"{ci.file.rel}:{g.lineno}")
+                    continue
+
+                def leaf_t(e):
+                    if isinstance(e, ast.Name) and e.id == tp:
+                        return alg.Poly.sym("v")
+                    if norm(e) == "self.min":
+                        return alg.Poly.sym("m")
+                    if norm(e) == "self.max":
+                        return alg.Poly.sym("M")
+                    return None
+                try:
+                    tpoly = alg.to_poly(tb, leaf_t)
+                    img_lo, img_hi = tpoly.subst("v", alg.Poly.sym("m")), tpoly.subst("v", alg.Poly.sym("M"))
+                    bad = None
+                    if lo is not None:
+                        w = _nonneg_on(img_lo - lo, vertex, rays)
+                        if w is not None:
+                            bad = (w, f"stored value of v = min is {img_lo} < accepted minimum {lo}")
+                    if hi is not None and bad is None:
+                        w = _nonneg_on(hi - img_hi, vertex, rays)
+                        if w is not None:
+                            bad = (w, f"stored value of v = max is {img_hi} > accepted maximum {hi}")
+                except (alg.NotAlgebraic, _NoInterval) as e:
+                    rep.inconclusive(f"{P}.{rule}", gcon, f"[{kind}, {label}]", f"not affine: {e}", f"{ci.file.rel}:{g.lineno}")
+                    continue
+                text = f"[{kind}, {label}] {name} accepts [{lo}, {hi}]; to_raw maps [min, max] onto [{img_lo}, {img_hi}]"
+                if bad is None:
+                    rep.ok(f"{P}.{rule}", gcon, text, "every stored value of an in-range value is accepted")
+                else:
+                    (wm, wM), why = bad
+                    rep.violation(f"{P}.{rule}", gcon, text,
+                                  f"set_raw applies `{name}` to the stored value before decoding; for a {kind} with {label} (e.g. min = {wm}, "
+                                  f"max = {wM}) {why} (m = min, M = max): set_raw(get_raw(v)) is rejected for in-range v",
+                                  f"{ci.file.rel}:{g.lineno}")
 
 
 # ------------------------------------------------------------------------------------ R3
